@@ -158,6 +158,7 @@ def step (line : String) : String :=
   match fields line with
   | ["pfrac", tr] => PF.cmd tr
   | ["aconc", tr] => AC.cmd tr
+  | ["cfg"] => s!"ok fx={fmtBool SV.C07.fx} allLast={fmtBool SV.C07.cfg.allLast} live={fmtBool SV.C07.cfg.live} tlLock={fmtBool SV.C07.cfg.tlLock}"
   | _ => "bad-op"
 
 def main : IO Unit := SV.Proto.main step
